@@ -29,6 +29,7 @@ void ThreePointsNumericalDerivative::updateDerivatives(const ParameterList& para
 
     string lastVar;
     bool functionChanged = false;
+    bool crossChanged = false;
     ParameterList p;
     bool start = true;
     for (size_t i = 0; i < variables_.size(); ++i)
@@ -134,7 +135,7 @@ void ThreePointsNumericalDerivative::updateDerivatives(const ParameterList& para
 
     if (computeCrossD2_)
     {
-      string lastVar1, lastVar2;
+      vector<string> allVars = parameters.getParameterNames();
       for (unsigned int i = 0; i < variables_.size(); i++)
       {
         string var1 = variables_[i];
@@ -151,20 +152,21 @@ void ThreePointsNumericalDerivative::updateDerivatives(const ParameterList& para
           if (!parameters.hasParameter(var2))
             continue;
 
+          // The two variables of the pair first, then all others: the first probe also resets
+          // whatever the previous probes (of the loop above or of the previous pair) left perturbed.
           vector<string> vars(2);
           vars[0] = var1;
           vars[1] = var2;
-          if (i > 0 && j > 0)
+          for (const auto& v : allVars)
           {
-            if (lastVar1 != var1 && lastVar1 != var2)
-              vars.push_back(lastVar1);
-            if (lastVar2 != var1 && lastVar2 != var2)
-              vars.push_back(lastVar2);
+            if (v != var1 && v != var2)
+              vars.push_back(v);
           }
           p = parameters.createSubList(vars);
 
-          double value1 = function_->getParameterValue(var1);
-          double value2 = function_->getParameterValue(var2);
+          // (the requested point, not the state of the function, which is still perturbed)
+          double value1 = parameters.getParameterValue(var1);
+          double value2 = parameters.getParameterValue(var2);
           double h1 = (1. + std::abs(value1)) * h_;
           double h2 = (1. + std::abs(value2)) * h_;
 
@@ -196,11 +198,16 @@ void ThreePointsNumericalDerivative::updateDerivatives(const ParameterList& para
           }
           catch (ConstraintException& ce)
           {
+            // Undo the probes before refusing:
+            if (function1_)
+              function1_->enableFirstOrderDerivatives(computeD1_);
+            if (function2_)
+              function2_->enableSecondOrderDerivatives(computeD2_);
+            function_->setParameters(parameters);
             throw Exception("ThreePointsNumericalDerivative::setParameters. Could not compute cross derivatives at limit.");
           }
 
-          lastVar1 = var1;
-          lastVar2 = var2;
+          crossChanged = true;
         }
       }
     }
@@ -210,7 +217,9 @@ void ThreePointsNumericalDerivative::updateDerivatives(const ParameterList& para
       function1_->enableFirstOrderDerivatives(computeD1_);
     if (function2_)
       function2_->enableSecondOrderDerivatives(computeD2_);
-    if (functionChanged)
+    if (crossChanged)
+      function_->setParameters(parameters); // the last pair is still perturbed
+    else if (functionChanged)
       function_->setParameters(parameters.createSubList(lastVar));
   }
   else
